@@ -32,7 +32,7 @@ Definition label_code (l : label) : N :=
   match l with
   | LStart => 1 | LAwait => 2 | LNew => 3 | LAppend => 4 | LFire => 5 | LLookup => 6 | LDeath => 7 | LCas => 8
   | LAssignErr => 9 | LAssignMsg => 10 | LCloseDone => 11 | LCloser => 12 | LLockClose => 13 | LTell => 14
-  | LLockPipe => 15 | LLoad => 16 | LRecv => 17 | LForeign => 18 | LNone => 0
+  | LLockPipe => 15 | LLoad => 16 | LRecv => 17 | LForeign => 18 | LCheck => 19 | LPipeWait => 20 | LNone => 0
   end.
 
 Definition tval (v : val) : tm :=
@@ -99,7 +99,7 @@ Definition run_future (t : tm) : tm :=
           let (out, sf) := replay (map N.to_nat sched) (init timeout progs) in
           TL [TL out;
               tlist (fun e => TL (TN (fst e) :: tres (snd e))) (tells sf);
-              tlist (fun e => TL (TN (N.of_nat (fst e)) :: tres (snd e))) (rets sf);
+              tlist (fun e => TL (TN (N.of_nat (fst (fst e))) :: tres (snd e))) (rets sf);
               tlist (fun e => TL [TN (fst (fst e)); tval (snd (fst e)); topt TN (snd e)]) (routed sf);
               TN (end_kind sf)]
       | _, _ => tm_err 1
